@@ -16,7 +16,7 @@ Record sim_modes : Prop := {
   sm_store : forall v, goodo (store_red m1 v) -> store_red m2 v = store_red m1 v;
   sm_truthy : forall v, goodo (truthy m1 v) -> truthy m2 v = truthy m1 v;
   sm_or : forall v, goodo (or_step m1 v) -> or_step m2 v = or_step m1 v;
-  sm_last : forall b v, goodo (last_red b m1 v) -> last_red b m2 v = last_red b m1 v;
+  sm_last : forall v, goodo (last_red m1 v) -> last_red m2 v = last_red m1 v;
   sm_short : goodo (short_args m1) -> short_args m2 = short_args m1;
   sm_loc : forall fs sc x, goodo (locate_m m1 fs sc x) -> locate_m m2 fs sc x = locate_m m1 fs sc x
 }.
@@ -67,7 +67,7 @@ Ltac rw_lead :=
   | G : goodo (store_red m1 ?v) |- _ => rewrite (sm_store SM _ G); clear G
   | G : goodo (truthy m1 ?v) |- _ => rewrite (sm_truthy SM _ G); clear G
   | G : goodo (or_step m1 ?v) |- _ => rewrite (sm_or SM _ G); clear G
-  | G : goodo (last_red ?b m1 ?v) |- _ => rewrite (sm_last SM _ _ G); clear G
+  | G : goodo (last_red m1 ?v) |- _ => rewrite (sm_last SM _ G); clear G
   | G : goodo (short_args m1) |- _ => rewrite (sm_short SM G); clear G
   | G : goodo (locate_m m1 ?fs ?sc ?x) |- _ => rewrite (sm_loc SM _ _ _ G); clear G
   end.
@@ -118,20 +118,6 @@ Proof.
   apply pair_sim; [apply (sm_truthy SM)|assumption].
 Qed.
 Ltac rw_test := idtac; match goal with G : good (ev_test m1 ev1 _ _ _) |- _ => rewrite (ev_test_sim _ _ _ G); clear G end.
-
-Lemma ev_progn_sim : forall es st sc, good (ev_progn m1 ev1 st sc es) -> ev_progn m2 ev2 st sc es = ev_progn m1 ev1 st sc es.
-Proof.
-  induction es as [|e es IH]; intros st sc H; [reflexivity|].
-  destruct es as [|e' es'].
-  - simpl in *. step noop. apply pair_sim; [apply (sm_last SM)|assumption].
-  - change (ev_progn m1 ev1 st sc (e :: e' :: es')) with
-      (bind (ev1 st sc e) (fun v st1 => bindo (arg_red m1 v) st1 (fun _ => ev_progn m1 ev1 st1 sc (e' :: es')))) in *.
-    change (ev_progn m2 ev2 st sc (e :: e' :: es')) with
-      (bind (ev2 st sc e) (fun v st1 => bindo (arg_red m2 v) st1 (fun _ => ev_progn m2 ev2 st1 sc (e' :: es')))).
-    step noop. try (step noop). apply IH; assumption.
-Qed.
-
-Ltac rw_progn := idtac; match goal with G : good (ev_progn m1 ev1 _ _ _) |- _ => rewrite (ev_progn_sim _ _ _ G); clear G end.
 
 Lemma ev_cond_sim : forall cls st sc, good (ev_cond m1 ev1 st sc cls) -> ev_cond m2 ev2 st sc cls = ev_cond m1 ev1 st sc cls.
 Proof.
@@ -243,7 +229,7 @@ Ltac rw_any := first [rw_seq|rw_args|rw_inits|rw_test|rw_assign|rw_apply|rw_map|
 Ltac step' := split_good; try (first [rw_lead | rw_any]); case_lead.
 Ltac fin := first
   [ reflexivity | assumption
-  | apply Hev; assumption | apply ev_seq_sim; assumption | apply ev_progn_sim; assumption | apply ev_cond_sim; assumption
+  | apply Hev; assumption | apply ev_seq_sim; assumption | apply ev_cond_sim; assumption
   | apply ev_and_sim; assumption | apply ev_or_sim; assumption | apply ev_letstar_sim; assumption
   | apply ev_setq_sim; assumption | apply apply_fn_sim; assumption | apply ev_opt_sim; assumption
   | apply pair_sim; [apply (sm_last SM)|assumption] ].
@@ -280,9 +266,8 @@ Proof.
       * intros _. destruct v; try discriminate; reflexivity.
   - intros v; destruct m; simpl; try reflexivity; destruct (is_values v) eqn:Hv; try congruence.
     intros _; destruct v; try discriminate; reflexivity.
-  - intros b v; destruct m; simpl; try reflexivity; destruct (is_values v) eqn:Hv; try congruence; intros _.
-    + destruct b; [|reflexivity]. destruct v; try discriminate; reflexivity.
-    + destruct b; [reflexivity|]. destruct v; try discriminate; reflexivity.
+  - intros v; destruct m; simpl; try reflexivity; destruct (is_values v) eqn:Hv; try congruence; intros _.
+    destruct v; try discriminate; reflexivity.
   - destruct m; simpl; congruence.
   - intros fs sc x; destruct m; simpl; try reflexivity.
     + destruct (loc_eqb (locate false fs sc x) (locate true fs sc x)) eqn:Hl; [|congruence].
